@@ -5,5 +5,5 @@ cd "$(dirname "$0")/.."
 for c in $(python3 -c "import json; print(' '.join(x['property_id'] for x in json.load(open('MANIFEST.json'))['checks']))"); do
   out=$(bin/check $c --tier $TIER 2>&1); rc=$?
   echo "$c rc=$rc $(echo "$out" | grep -E "tier=" | tail -1 | sed 's/^.*seed=[0-9]*: //')"
-  echo "$out" | grep -E "^VIOLATION|^INFRASTRUCTURE|^KNOWN-FINDING" | cut -c1-200 | head -5
+  echo "$out" | grep -E "^VIOLATION|^INFRASTRUCTURE|^KNOWN-FINDING|^note:|^  other:" | cut -c1-200 | head -5
 done
